@@ -1457,6 +1457,8 @@ class Interp:
             r = h(self.ctx, obj, attr)
             if r is not NotImplemented:
                 return r
+        if attr == "__class__" and (obj is None or type(obj) in (dict, list, tuple, str, int, float, bool, set, frozenset)):
+            return ClassRef(type(obj).__name__)  # the class of a concrete built-in value
         raise BoundMethod(obj, attr)
 
     def _eval_args(self, call, env):
@@ -1646,6 +1648,9 @@ class Interp:
 
         def emit(sub):
             k = self.eval(e.key, sub)
+            if is_z3(k):
+                out[_dkey(k)] = self.eval(e.value, sub)  # as for d[k] = v: a symbolic key is a new entry unless the very same term was used before
+                return
             if not is_concrete(k):
                 raise Unsupported("dict comprehension with symbolic key", e)
             out[k] = self.eval(e.value, sub)
